@@ -406,6 +406,12 @@ class Parser:
                 if not hook:
                     stmts.append(("break",))
                 continue
+            if self.at("loop") and self.at("{", 1):
+                self.next()
+                body = self.parse_block()
+                if not hook:
+                    stmts.append(("loop", body))
+                continue
             if self.at("while") or self.at("loop") or self.at("break") or self.at("continue"):
                 self.err("control flow outside the translated subset")
             e = self.parse_expr()
@@ -817,7 +823,10 @@ class Emitter:
                     tgt = s[1]
                     while tgt[0] in ("field", "deref", "paren"):
                         tgt = tgt[1]
-                    if tgt[0] == "path" and len(tgt[1]) == 1:
+                    if tgt[0] == "path" and len(tgt[1]) == 1 and isinstance(self.p.kinds.get(tgt[1][0]), tuple):
+                        holder = self.p.kinds[tgt[1][0]][1]
+                        add("self" if holder.startswith("self.") else holder)
+                    elif tgt[0] == "path" and len(tgt[1]) == 1:
                         if tgt[1][0] not in local:
                             add(tgt[1][0])
                     else:
@@ -830,6 +839,8 @@ class Emitter:
                 elif s[0] == "whilelet":
                     walk_expr(s[2], local)
                     walk_block(s[3], local | set(self.pat_vars(s[1])))
+                elif s[0] == "loop":
+                    walk_block(s[1], local)
                 elif s[0] == "break":
                     if "stop__" not in local:
                         add("stop__")
@@ -1100,6 +1111,20 @@ class Emitter:
             base = tgt
             while base[0] in ("deref", "paren"):
                 base = base[1]
+            if base[0] == "field" and base[1][0] == "path" and len(base[1][1]) == 1 and \
+                    isinstance(self.p.kinds.get(base[1][1][0]), tuple) and self.p.kinds[base[1][1][0]][0] == "entryref":
+                x = base[1][1][0]
+                _, holder, keytext = self.p.kinds[x]
+                fld = getattr(self.p, "TUPLE_FIELDS", {}).get(base[2]) or getattr(self.p, "FIELDS", {}).get(base[2])
+                if fld is None:
+                    self.fail("assignment to this field of an entry", tgt)
+                out = [self.let(ident(x), "{ " + ident(x) + " with " + fld + " := " + self.expr(s[3], env) + " }")]
+                if holder.startswith("self."):
+                    f_ = ident(holder[5:])
+                    out.append(self.let("self", "{ self with " + f_ + " := RustLite.mapSet self." + f_ + " " + keytext + " " + ident(x) + " }"))
+                else:
+                    out.append(self.let(ident(holder), "RustLite.mapSet " + ident(holder) + " " + keytext + " " + ident(x)))
+                return out
             if base[0] == "path" and len(base[1]) == 1:
                 self.p.note_let(("pid", base[1][0]), s[3])
                 return [self.let(ident(base[1][0]), self.expr(s[3], env))]
@@ -1116,6 +1141,8 @@ class Emitter:
                 return self.hoist(e, env)[0]
             if e[0] == "mcall" and self.p.self_call_mut(e) is not None:
                 return self.hoist(e, env)[0]
+            if e[0] == "call" and e[1][0] == "path" and e[1][1] == ["drop"]:
+                return []          # dropping a guard / entry reference: mutations were written through already
             if e[0] == "iflet" and e[4] is None and e[2][0] == "mcall" and e[2][2] == "get_mut" and len(e[2][4]) == 1 \
                     and e[1][0] == "pts" and e[1][1] == ["Some"] and e[1][2][0][0] == "pid":
                 # `if let Some(x) = map.get_mut(k) { …mutate x… }`: x is a reference INTO the map — write it back
@@ -1584,6 +1611,7 @@ class PureProfile(BaseProfile):
         self.uses_float = False
         self.uses_clock = False
         self.uses_rand = False
+        self.uses_fuel = False
 
     FIELDS = {"frequency": "hits", "inserted_at": "birth", "value": "val"}
 
@@ -1794,7 +1822,7 @@ class PureProfile(BaseProfile):
             return f"(List.length {R()})"
         if name == "is_empty" and not args:
             return f"(List.isEmpty {R()})"
-        if name == "get" and len(args) == 1 and kind == "map":
+        if name in ("get", "get_mut") and len(args) == 1 and kind == "map":
             return f"(lookup {A_(0)} {R()})"
         if name == "contains_key" and len(args) == 1 and kind == "map":
             return f"(hasKey {A_(0)} {R()})"
@@ -1856,7 +1884,7 @@ def regenerate():
         except Exception as e:      # nothing of this file could be read: no translation, the obligations are broken
             problems.append(f"{rel}: " + (str(e) if isinstance(e, Untranslatable) else f"translator error {e!r}"))
             text = "-- translation failed: " + str(e).replace("\n", " ") + "\n"
-        h2 = hdr.replace("import Cachelito.RustLite\n", "import Cachelito.RustLite\nimport Cachelito.Generated.PureUtils\nimport Cachelito.Generated.PureEntry\nimport Cachelito.Generated.PureStats\n") if mod == "Global" else hdr
+        h2 = hdr.replace("import Cachelito.RustLite\n", "import Cachelito.RustLite\nimport Cachelito.Generated.PureUtils\nimport Cachelito.Generated.PureEntry\nimport Cachelito.Generated.PureStats\n") if mod in ("Global", "Async") else hdr
         write_if_changed(os.path.join(GEN_DIR, f"Pure{mod}.lean"), h2 + f"namespace {mod}\nvariable {{K V F : Type}} [DecidableEq K]\n\n" + text + f"\nend {mod}\nend Cachelito.Generated\n")
     info["problems"] = problems
     return info
@@ -1915,73 +1943,226 @@ UTIL_FILES = [
      {"self.map": "map", "self.order": "deque", "self.frequency_weight": "optf64", "self.stats": "stats"},
      ["handle_entry_limit_eviction", "insert", "increment_frequency", "get"]),
     ("Async", "cachelito-core/src/async_global_cache.rs", "RustLite.AsyncCache K V F",
-     {"self.cache": "map", "self.order": "deque", "self.frequency_weight": "optf64"},
+     {"self.cache": "map", "self.order": "deque", "self.frequency_weight": "optf64", "self.stats": "stats"},
      ["find_min_frequency_key", "find_arc_eviction_key", "find_tlru_eviction_key", "is_already_key_inserted",
-      "handle_entry_limit_eviction", "insert"]),
+      "handle_entry_limit_eviction", "insert", "get"]),
 ]
 
 
-def emit_fn_body(em, f, env, muts):
-    """the body of a translated function: `let`s ending in its result — (value, new values of the mutated parameters).
-    Handles at the top level of the function: `let mut g = self.<field>.lock();` (g aliases the field; written back before
-    every result) and `if c { return [v]; }` (the rest of the body becomes the else branch)."""
-    aliases = []      # (variable, field of self)
+class Cont:
+    """where a statement sequence goes when it ends normally / returns / breaks: functions env -> Lean text"""
+    def __init__(self, normal, ret=None, brk=None):
+        self.normal, self.ret, self.brk = normal, ret, brk
 
-    def result(tail_text):
-        wb = [em.let("self", "{ self with " + ident(fl) + " := " + ident(v) + " }") for (v, fl) in aliases]
-        if tail_text is not None:
-            res = "(" + ", ".join([tail_text] + [ident(m) for m in muts]) + ")" if muts else tail_text
-        else:
-            res = em.tup(muts) if muts else "()"
-        return wb, res
 
-    def go_block(stmts, env):
-        """statements of an early-return block; guards taken there are aliases until the return"""
+def has_exit(node):
+    """does the statement / block / expression contain a `return`, or a `break` that is not inside a loop of its own?"""
+    def st_exit(st):
+        k = st[0]
+        if k == "return" or k == "break":
+            return True
+        if k == "expr":
+            return ex_exit(st[1])
+        if k in ("for", "whilelet", "loop"):
+            return blk_ret(st[-1])
+        return False
+
+    def blk_ret(b):
+        """only `return`s escape a loop"""
+        def sr(st):
+            if st[0] == "return":
+                return True
+            if st[0] == "expr":
+                return er(st[1])
+            if st[0] in ("for", "whilelet", "loop"):
+                return blk_ret(st[-1])
+            return False
+
+        def er(e):
+            if e is None:
+                return False
+            if e[0] == "block":
+                return blk_ret(e)
+            if e[0] == "if":
+                return blk_ret(e[2]) or er(e[3])
+            if e[0] == "iflet":
+                return blk_ret(e[3]) or er(e[4])
+            if e[0] == "match":
+                return any(er(b) for (_, _, b) in e[2])
+            return False
+        return any(sr(st) for st in b[1]) or er(b[2])
+
+    def blk_exit(b):
+        return any(st_exit(st) for st in b[1]) or ex_exit(b[2])
+
+    def ex_exit(e):
+        if e is None:
+            return False
+        if e[0] == "block":
+            return blk_exit(e)
+        if e[0] == "if":
+            return blk_exit(e[2]) or ex_exit(e[3])
+        if e[0] == "iflet":
+            return blk_exit(e[3]) or ex_exit(e[4])
+        if e[0] == "match":
+            return any(ex_exit(b) for (_, _, b) in e[2])
+        return False
+    if node[0] in ("let", "assign", "expr", "for", "whilelet", "loop", "return", "break"):
+        return st_exit(node)
+    return ex_exit(node)
+
+
+def seq(em, stmts, env, K, sep="; "):
+    """a statement sequence in continuation style: straight-line statements become `let`s; a statement that contains an
+    exit (`return`, `break`) becomes an `if` / `match` whose branches each run to THEIR end — the rest of the sequence is
+    inlined into the branches that fall through.  Guards taken in this sequence (`let g = self.f.lock()`) are aliases
+    of the field, written back wherever the sequence is left."""
+    aliases = []
+
+    def wb():
+        return [em.let("self", "{ self with " + ident(fl) + " := " + ident(v) + " }") for (v, fl) in aliases]
+
+    def join(parts, nested=False):
+        return ("; " if nested else sep).join(p for p in parts if p)
+
+    Kin = Cont(normal=lambda env2: join(wb() + [K.normal(env2)], True),
+               ret=(lambda v, env2: join(wb() + [K.ret(v, env2)], True)) if K.ret else None,
+               brk=(lambda env2: join(wb() + [K.brk(env2)], True)) if K.brk else None)
+
+    def go(i, env, nested=False):
         lines = []
-        for st in stmts:
-            if em.lock_alias(st) is not None:
-                v, fl = em.lock_alias(st)
-                aliases.append((v, fl))
+        env = list(env)
+        while i < len(stmts):
+            st = stmts[i]
+            al = em.lock_alias(st)
+            if al is not None:
+                v, fl = al
+                aliases.append(al)
                 em.p.kinds[v] = em.p.kinds.get("self." + fl)
                 env.append(v)
                 lines.append(em.let(ident(v), "self." + ident(fl)))
+                i += 1
                 continue
-            lines += em.stmt(st, env)
-        return lines
+            if st[0] == "return":
+                if Kin.ret is None:
+                    em.fail("`return` inside a loop body")
+                return join(lines + [Kin.ret(st[1], env)], nested)
+            if st[0] == "break":
+                if Kin.brk is None:
+                    em.fail("`break` outside a loop")
+                return join(lines + [Kin.brk(env)], nested)
+            if st[0] == "loop":
+                lines += loop_stmt(st, env)
+                i += 1
+                continue
+            if st[0] == "whilelet" and any(x[0] == "break" or has_exit(x) for x in st[3][1]):
+                lines += whilelet_stmt(st, env)
+                i += 1
+                continue
+            if not has_exit(st):
+                lines += em.stmt(st, env)
+                i += 1
+                continue
+            # a branching statement with an exit somewhere inside: inline the rest into the branches
+            n_al = len(aliases)
+            rest_i = i + 1
 
-    def go(stmts, tail, env):
-        lines = []
-        for idx, st in enumerate(stmts):
-            # lock alias
-            if em.lock_alias(st) is not None:
-                v, fl = em.lock_alias(st)
-                aliases.append((v, fl))
-                em.p.kinds[v] = em.p.kinds.get("self." + fl)
-                env.append(v)
-                lines.append(em.let(ident(v), "self." + ident(fl)))
-                continue
-            # early return: `if c { stmts…; return [v]; }`
-            if st[0] == "expr" and st[1][0] == "if" and st[1][3] is None and st[1][2][1] and \
-                    st[1][2][1][-1][0] == "return" and st[1][2][2] is None:
-                h = em.hoist(st[1][1], env)
+            def Kbranch():
+                return Cont(normal=lambda env2: go(rest_i, env2, True),
+                            ret=Kin_ret_raw, brk=Kin_brk_raw)
+            # inside a branch the OUTER aliases are still alive: returns must write them back too -> use Kin (which does)
+            Kin_ret_raw = (lambda v, env2: join(wb() + [K.ret(v, env2)], True)) if K.ret else None
+            Kin_brk_raw = (lambda env2: join(wb() + [K.brk(env2)], True)) if K.brk else None
+            e = st[1] if st[0] == "expr" else None
+            if e is None:
+                em.fail("exit inside a statement of this form", st)
+
+            def branch(b, extra=()):
+                if b is None:
+                    return go(rest_i, env, True)
+                if b[0] == "block":
+                    items = list(b[1]) + ([("expr", b[2])] if b[2] is not None else [])
+                    return seq(em, items, env + list(extra), Kbranch(), "; ")
+                return seq(em, [("expr", b)], env + list(extra), Kbranch(), "; ")
+            if e[0] == "if":
+                h = em.hoist(e[1], env)
                 lines += h[0]
-                cond = em.expr(h[1], env)
-                blk = st[1][2]
-                rv = blk[1][-1][1]
-                n_al = len(aliases)
-                inner = go_block(blk[1][:-1], list(env))
-                wb, res = result(em.expr(rv, env) if rv is not None else None)
-                del aliases[n_al:]
-                early = "; ".join(inner + wb + [res])
-                rest = go(stmts[idx + 1:], tail, list(env))
-                lines.append(f"if {cond} then ({early}) else (\n  {rest})")
-                return "\n  ".join(lines)
-            lines += em.stmt(st, env)
-        wb, res = result(em.expr(tail, env) if tail is not None else None)
-        return "\n  ".join(lines + wb + [res])
+                text = f"if {em.expr(h[1], env)} then ({branch(e[2])}) else ({branch(e[3])})"
+            elif e[0] == "iflet":
+                if e[2][0] == "mcall" and e[2][2] == "get_mut" and len(e[2][4]) == 1 and e[1][0] == "pts" and \
+                        e[1][1] == ["Some"] and e[1][2][0][0] == "pid":
+                    tgt = strip_guard(e[2][1])
+                    holder = ("self." + tgt[2]) if is_self_field(tgt) else (tgt[1][0] if tgt[0] == "path" else None)
+                    if holder is None:
+                        em.fail("`get_mut` on anything but a map", e)
+                    em.p.kinds[e[1][2][0][1]] = ("entryref", holder, em.expr(e[2][4][0], env))
+                h = em.hoist(e[2], env)
+                lines += h[0]
+                text = f"match {em.expr(h[1], env)} with | {em.pat(e[1])} => ({branch(e[3], em.pat_vars(e[1]))}) | _ => ({branch(e[4])})"
+            elif e[0] == "match":
+                arms = []
+                for (pt, g, b) in e[2]:
+                    if g is not None:
+                        em.fail("match guard", e)
+                    arms.append(f"| {em.pat(pt)} => ({branch(b, em.pat_vars(pt))})")
+                text = f"match {em.expr(e[1], env)} with " + " ".join(arms)
+            elif e[0] == "block":
+                text = branch(e)
+            else:
+                em.fail("exit inside an expression of this form", e)
+            return join(lines + ["(" + text + ")"], nested)
+        return join(lines + [Kin.normal(env)], nested)
 
+    def loop_vars(body, env):
+        return [w for w in em.assigned(body, env + ["stop__"]) if w != "stop__"]
+
+    def loop_stmt(st, env):
+        body = st[1]
+        ws = loop_vars(body, env)
+        if not ws:
+            em.fail("`loop` without effect", st)
+        em.p.uses_fuel = True
+        stt = em.tup(ws)
+        Kl = Cont(normal=lambda env2: "(false, " + ", ".join(ident(w) for w in ws) + ")",
+                  ret=None, brk=lambda env2: "(true, " + ", ".join(ident(w) for w in ws) + ")")
+        items = list(body[1]) + ([("expr", body[2])] if body[2] is not None else [])
+        inner = seq(em, items, env, Kl, "; ")
+        return [em.let(stt, f"RustLite.loopFuel fuel {stt} (fun {stt} => ({inner}))")]
+
+    def whilelet_stmt(st, env):
+        sc = st[2]
+        if not (sc[0] == "mcall" and sc[2] == "pop_front" and sc[1][0] == "path" and len(sc[1][1]) == 1 and not sc[4]):
+            em.fail("`while let` over anything but `deque.pop_front()`", st)
+        if not (st[1][0] == "pts" and st[1][1] == ["Some"] and len(st[1][2]) == 1):
+            em.fail("`while let` pattern other than `Some(x)`", st)
+        v = sc[1][1][0]
+        elem = st[1][2][0]
+        ws = [w for w in loop_vars(st[3], env) if w != v]
+        if v in em.assigned(st[3], env):
+            em.fail("the loop body mutates the deque it pops from", st)
+        if not ws:
+            em.fail("`while let` loop without effect on anything but the deque", st)
+        stt = em.tup(ws)
+        Kl = Cont(normal=lambda env2: "(false, " + ", ".join(ident(w) for w in ws) + ")",
+                  ret=None, brk=lambda env2: "(true, " + ", ".join(ident(w) for w in ws) + ")")
+        items = list(st[3][1]) + ([("expr", st[3][2])] if st[3][2] is not None else [])
+        inner = seq(em, items, env + em.pat_vars(elem), Kl, "; ")
+        return [em.let("(" + ident(v) + ", " + stt + ")", f"RustLite.whilePop {ident(v)} {stt} (fun {em.pat(elem)} {stt} => ({inner}))")]
+
+    return go(0, list(env))
+
+
+def emit_fn_body(em, f, env, muts):
+    """the body of a translated function: `let`s ending in its result — (value, new values of the mutated parameters)"""
+    def result(tail_text):
+        if tail_text is not None:
+            return "(" + ", ".join([tail_text] + [ident(m) for m in muts]) + ")" if muts else tail_text
+        return em.tup(muts) if muts else "()"
     b = f["body"]
-    return "  " + go(list(b[1]), b[2], list(env))
+    tail = b[2]
+    K = Cont(normal=lambda env2: result(em.expr(tail, env2) if tail is not None else None),
+             ret=lambda v, env2: result(em.expr(v, env2) if v is not None else None), brk=None)
+    return "  " + seq(em, list(b[1]), list(env), K, sep="\n  ")
 
 
 EXTERNAL = {}      # functions of modules translated earlier: name -> table entry (with qualified lean_name)
@@ -2036,7 +2217,7 @@ def translate_utils(module, skip=()):
         if missing:
             raise Untranslatable(f"{rel}: function(s) the model transcribes are missing from the source: {', '.join(missing)}")
         # signature pass
-        table = {k: v for k, v in EXTERNAL.items() if module == "Global"}
+        table = {k: v for k, v in EXTERNAL.items() if module == "Global" or (module == "Async" and k.startswith("Stats."))}
         for name in wanted:
             hdr, f = byname[name]
             mut_idx = [i for i, (pn, pt) in enumerate(f["params"]) if pt.replace(" ", "").startswith("&mut")]
